@@ -395,7 +395,7 @@ func (m *monC03) compare(w *World, ctx sdk.Context, where string) {
 				continue
 			}
 		}
-		if po.Purchaser != mo.Purchaser || po.Amount.Amount.BigInt().Cmp(mo.Amount) != 0 || po.Amount.Denom != mo.Denom || po.RaiseTime != mo.RaiseTime {
+		if canonAddr(po.Purchaser) != mo.Purchaser || po.Amount.Amount.BigInt().Cmp(mo.Amount) != 0 || po.Amount.Denom != mo.Denom || po.RaiseTime != mo.RaiseTime {
 			w.Violate("C03", "C03/order-record-differs", "%s: order %d: model %s, chain %s", where, id, mo, po.String())
 		}
 		if (st == 2 || st == 3) && po.CompletionTime != mo.CompletionTime {
@@ -406,7 +406,7 @@ func (m *monC03) compare(w *World, ctx sdk.Context, where string) {
 		} else {
 			for i, d := range po.Decisions {
 				md := mo.Decisions[i]
-				if d.Signer != md.Signer || int(d.Decision) != md.Decision || d.DecisionTime != md.Time {
+				if canonAddr(d.Signer) != md.Signer || int(d.Decision) != md.Decision || d.DecisionTime != md.Time {
 					w.Violate("C03", "C03/decisions-differ", "%s: order %d decision %d: chain %v model %v", where, id, i, d, md)
 				}
 			}
